@@ -106,7 +106,7 @@ func factsC04(r *Repo) []Fact {
 		}
 	}
 	out = append(out, boolFact("adaptorNamesMatch", okAd, "every derived form uses the adaptor named <target>By<Source>"))
-	out = append(out, factEmptyStream(cp), factDagGetEmptyStream(cp))
+	out = append(out, factEmptyStream(cp), factDagGetEmptyStream(cp), factStreamFilterNilSafe(cp))
 	return out
 }
 
@@ -203,4 +203,34 @@ func factDagGetEmptyStream(cp *Pkg) Fact {
 		return true
 	})
 	return boolFact("dagGetHandsOutEmptyStream", found, "compose/"+file+" dagChannel.get: no value arrived → ch.emptyStream() in stream mode, ch.zeroValue() otherwise")
+}
+
+// defaultStreamMapFilter's conversion function must not call a method on reflect.TypeOf(v): v is an
+// untyped nil when the producer put nil under the key, and reflect.TypeOf(nil) is a nil Type.
+func factStreamFilterNilSafe(cp *Pkg) Fact {
+	fd, file := cp.Func("", "defaultStreamMapFilter")
+	if fd == nil || fd.Body == nil {
+		return unknownFact("streamFilterNilSafe", "Bool", "false", "compose/generic_helper.go", "defaultStreamMapFilter not found")
+	}
+	unsafeCall := ""
+	hasAssert := false
+	ast.Inspect(fd.Body, func(n ast.Node) bool {
+		switch x := n.(type) {
+		case *ast.TypeAssertExpr:
+			hasAssert = true
+		case *ast.SelectorExpr:
+			if c, ok := x.X.(*ast.CallExpr); ok && exprString(c.Fun) == "reflect.TypeOf" {
+				unsafeCall = exprString(x)
+			}
+		}
+		return true
+	})
+	if !hasAssert {
+		return unknownFact("streamFilterNilSafe", "Bool", "false", "compose/"+file, "defaultStreamMapFilter has no type assertion on the value under the key")
+	}
+	w := "compose/" + file + " defaultStreamMapFilter: no method call on reflect.TypeOf(v)"
+	if unsafeCall != "" {
+		w = "compose/" + file + " defaultStreamMapFilter calls " + unsafeCall + " (panics for an untyped nil)"
+	}
+	return boolFact("streamFilterNilSafe", unsafeCall == "", w)
 }
